@@ -523,8 +523,10 @@ pub fn run_c31(ctx: &Ctx) {
                     continue;
                 }
             };
-            let count = if share_all { per_len.div_ceil(workers) } else { per_len / 4 };
-            let sw = if share_all { sweeps_per_len.div_ceil(workers) } else { sweeps_per_len / 4 };
+            // a long list runs on one worker and its circuit is quadratic in the length: fewer cases there
+            let shrink = (len / 8).max(1);
+            let count = if share_all { per_len.div_ceil(workers) } else { per_len / 4 / shrink };
+            let sw = if share_all { sweeps_per_len.div_ceil(workers) } else { (sweeps_per_len / 4 / shrink).max(2) };
             for c in 0..count {
                 let vals = gen_sort_list(&mut rng, len);
                 sort_case(&sc, &vals, &mut rng, t, if c < sw { if len <= 5 { usize::MAX } else { gens_cap } } else { 0 });
